@@ -239,60 +239,78 @@ def run(ctx):
         if any(r is None or r == "hang" or r.startswith("timeout") or r.startswith("skipped") for r in rs):
             retried += 1
             impl.update(C07.run_impl_guarded([c["impl"]], per_line_timeout=75.0, jobs=1, env={"SV_TIMEOUT_MS": "60000"}))
-    findings = []
-    evaluations = 0
-    agree = 0
-    static_dev = 0
-    undecided = 0
-    per_config = {cf: 0 for cf in CONFIGS}
-    distinct = set()
-    for c in cases:
+    stats = {"evaluations": 0, "agree": 0, "static_dev": 0, "undecided": 0,
+             "per_config": {cf: 0 for cf in CONFIGS}, "distinct": set()}
+
+    def judge_case(c, count):
+        out = []
         loads_ok = all(impl.get("%s_l%s" % (c["id"], cf)) == "loaded" for cf in c["configs"])
         for k in range(c["nq"]):
             mres = model.get("%s_q%dR" % (c["id"], k))
             mi = C07.model_items(mres)
             if not isinstance(mi, tuple):
-                undecided += 1
+                if count:
+                    stats["undecided"] += 1
                 continue
             res = {cf: impl.get(c["qids"]["%d%s" % (k, cf)]) for cf in c["configs"]}
             items = {cf: C07.impl_items2(r) for cf, r in res.items()}
-            if rep is not None:
+            if rep is not None and count:
                 print("replay %s query %d\n%s\n  reference: %s" % (c["id"], k, c["text"], mres))
                 for cf in c["configs"]:
                     print("  %s: %s" % (cf, res[cf]))
-            evaluations += len(c["configs"])
+            if count:
+                stats["evaluations"] += len(c["configs"])
             st, _pr = C07.judge_query(c, mres, res["S"], impl.get(c["id"] + "_lS"))
             if st in ("skip-arith", "skip-domain"):
                 continue
             if st != 'agree':
-                static_dev += 1
+                if count:
+                    stats["static_dev"] += 1
                 continue
-            if mi[0]:
-                distinct.add((c["text"], k))
+            if mi[0] and count:
+                stats["distinct"].add((c["text"], k))
             bad = []
             for cf in c["configs"]:
                 if cf == "S":
-                    per_config[cf] += 1
+                    if count:
+                        stats["per_config"][cf] += 1
                     continue
                 ok = loads_ok and items[cf] is not None and items[cf] != 'hang' and \
                     C07.compare(mi, items[cf]) is None
                 if not ok and items[cf] not in (None, 'hang') and C07.out_of_domain(mi, items[cf]):
                     continue
                 if ok:
-                    per_config[cf] += 1
+                    if count:
+                        stats["per_config"][cf] += 1
                 else:
                     bad.append(cf)
             if not bad:
-                agree += 1
+                if count:
+                    stats["agree"] += 1
                 continue
             sig = {"family": "modes", "configs": "S-vs-" + "".join(bad)}
             detail = "query %d of\n%s\nreference: %s\n" % (k, c["text"], mres) + \
                      "\n".join("%s: %s" % (cf, res[cf]) for cf in c["configs"])
+            out.append(core.Finding("violation", sig, detail,
+                                    {"id": c["id"], "case_seed": c["case_seed"], "query": k, "text": c["text"],
+                                     "results": res, "reference": mres}))
+        return out
+
+    findings = []
+    confirmed_reruns = 0
+    for c in cases:
+        fs = judge_case(c, True)
+        if fs and rep is None:
+            # confirmation: run the case again, alone, with long watchdogs; keep what persists
+            confirmed_reruns += 1
+            impl.update(C07.run_impl_guarded([c["impl"]], per_line_timeout=75.0, jobs=1, env={"SV_TIMEOUT_MS": "60000"}))
+            fs = judge_case(c, False)
+        for f in fs:
             if rep is not None:
-                print("  PROBLEM %s" % sig)
-            findings.append(core.Finding("violation", sig, detail,
-                                         {"id": c["id"], "case_seed": c["case_seed"], "query": k, "text": c["text"],
-                                          "results": res, "reference": mres}))
+                print("  PROBLEM %s" % f.sig)
+            findings.append(f)
+    evaluations, agree, static_dev, undecided = stats["evaluations"], stats["agree"], stats["static_dev"], stats["undecided"]
+    per_config, distinct = stats["per_config"], stats["distinct"]
     return {
         "evaluations": evaluations,
         "distinct_nontrivial": len(distinct),
@@ -305,6 +323,7 @@ def run(ctx):
         "static_deviates_from_reference_left_to_C07": static_dev,
         "agreeing_query_runs_per_configuration": per_config,
         "cases_rerun_serially": retried,
+        "cases_rerun_for_confirmation": confirmed_reruns,
         "wall_seconds": round(time.time() - t0, 1),
         "exhaustive": False,
         "findings": findings,
